@@ -207,7 +207,7 @@ def gen_cases(tier, seed):
     # hostile documents delivered by one thread while other threads of the same process handle ordinary traffic (SOAP requests, POST
     # responses, metadata loads) - yields injected inside the library
     for k in range(2 if tier == "quick" else 12):
-        cases.append({"id": "threads-%d" % k, "sig": ["threads", k], "kind": "threads", "k": k, "rounds": 20 if tier == "quick" else 100})
+        cases.append({"id": "threads-%d" % k, "sig": ["threads", k], "kind": "threads", "own_worker": True, "all_envs": True, "k": k, "rounds": 20 if tier == "quick" else 100})
     if tier == "thorough" and not os.environ.get("VERIF_C11_TRACED"):
         # the repository's own test suite (with the driver on its PATH, so that the signature tests run too) as one more workload for the
         # parser-construction monitor: whatever the tests drive, a parser built inside the package is the defused one
@@ -644,7 +644,7 @@ def run_threads_case(case, ctx):
                 except Exception:
                     seen["refused"] += 1
     with parsermon.watch() as w:
-        res, errs, stats = interleave.run_threads([traffic_soap, traffic_post, attacker, traffic_soap], "%s/%s" % (ctx.seed, case["id"]), p=0.03, timeout=900)
+        res, errs, stats = interleave.run_threads_regimes([traffic_soap, traffic_post, attacker, traffic_soap], "%s/%s" % (ctx.seed, case["id"]), timeout=900, regimes=((0.03, 0.0002), (0.15, 0.0005), (0.01, 0.004)))
     viol = []
     if seen["accepted"]:
         viol.append({"key": "C11/entity-declaring-document-accepted", "what": "while other threads handled SOAP and POST traffic, %d entity-declaring document(s) were parsed into "
